@@ -38,10 +38,13 @@ PLAN = {
     "C09": {"quick": [("dead_ops3", dict(subs="SM", objs="O1", bc="B1", ops=3, ev=2, stop=True, tg="AllTargets", sd="BothSenders")),
                       ("dead_ops4_small", dict(subs="SM", objs="O1", bc="B1", ops=4, ev=1, stop=True, tg="SomeTargets", sd="NoSenders")),
                       # the message goes out through Engine.Request; the message value is the untyped nil
-                      ("dead_req_nil_ops3", dict(subs="S1", objs="O1", bc="B1", ops=3, ev=1, stop=True, tg="AllTargets", sd="ReqSenders", pl="BothPayloads"))],
+                      ("dead_req_nil_ops3", dict(subs="S1", objs="O1", bc="B1", ops=3, ev=1, stop=True, tg="AllTargets", sd="ReqSenders", pl="AllPayloads")),
+                      # an engine that has a remote (its address is the remote's, not "local"); a subscriber on another node
+                      ("dead_remote_engine_ops4", dict(subs="SR", objs="O1", bc="B1", ops=4, ev=1, stop=True, tg="LocalTargets", sd="NoSenders", rs="R1"))],
             "thorough": [("dead_ops4", dict(subs="SM", objs="O1", bc="B1", ops=4, ev=2, stop=True, tg="AllTargets", sd="BothSenders")),
                          ("dead_ops5_small", dict(subs="SM", objs="O1", bc="B1", ops=5, ev=2, stop=True, tg="SomeTargets", sd="NoSenders")),
-                         ("dead_req_nil_ops4", dict(subs="SM", objs="O1", bc="B1", ops=4, ev=1, stop=True, tg="AllTargets", sd="AllSenders", pl="BothPayloads"))]},
+                         ("dead_req_nil_ops4", dict(subs="SM", objs="O1", bc="B1", ops=4, ev=1, stop=True, tg="AllTargets", sd="AllSenders", pl="AllPayloads")),
+                         ("dead_remote_engine_ops5", dict(subs="SR", objs="O1", bc="B1", ops=5, ev=1, stop=True, tg="LocalTargets", sd="BothSenders", rs="R1"))]},
 }
 REGRESSION = {
     "C12": [("KeyByValue=FALSE", dict(subs="S2", objs="O2", bc="B1", ops=4, ev=2, kbv=False, exp=False, live=False), {"C12_Exact"})],
